@@ -32,7 +32,7 @@ PAR = 8
 BOUND = 25.0
 
 ACTS = ["idle", "blocked", "busy", "sleep", "swallow_kbi", "sigint_ignored", "daemon_threads", "flood", "big_transfer", "endmarker_raises",
-        "callback_service", "inbound_flood"]
+        "callback_service", "inbound_flood", "thread_exhaustion"]
 GEVENT_ACTS = ["idle", "blocked", "gevent_sleep", "gevent_busy", "gevent_timesleep"]
 REMOVALS = ["sigkill", "sigterm", "os_exit", "normal_exit", "close_connection", "during_bootstrap"]
 TOPOS = ["popen", "python", "via", "socket"]
@@ -306,6 +306,8 @@ def run_shard(spec):
         cases[1].update(gen_fixed("popen", "thread", "inbound_flood", "sigterm"))
     if spec["shard"] == 5:
         cases[0].update(gen_fixed("popen", "main_thread_only", "inbound_flood", "sigkill"))
+        cases[1].update(gen_fixed("popen", "thread", "thread_exhaustion", "sigkill"))
+        cases[2].update(gen_fixed("python", "thread", "thread_exhaustion", "close_connection"))
         cases[5].update(gen_fixed("python", "main_thread_only", "callback_service", "close_connection"))
         cases[3].update(gen_fixed("python", "thread", "sigint_ignored", "sigkill", stderr="closed"))
     if spec["shard"] == 2:
